@@ -36,6 +36,10 @@ type Op struct {
 	Fail    []int             `json:"fail,omitempty"`
 	Slow    []int             `json:"slow,omitempty"`
 	TaskOut map[string]string `json:"taskout,omitempty"`
+	// Real: START_ACTIVITY / STOP_ACTIVITY / GO_ERROR run the package's real transition object
+	// (NewStartActivityTransition ...) against a stand-in task manager that answers the transition
+	// request with a TasksStateChangedEvent, with an error when Body is "fail"
+	Real bool `json:"real,omitempty"`
 }
 
 type Input struct {
